@@ -118,11 +118,14 @@ def sub_alphabet(tier):
     return [s for s in syms if s["ver"] in ([0, 1], [1, 0], [1, 1], [2, 0]) and s["layout"][0] != "e128" and not (s["port"] is not None and s["port"] in (6201, 301) and s["name"] == "r.B")][:60]
 
 
+BYSTANDERS = [None, "r.AAA", "r.Zzz"]  # an unrelated target whose name sorts before / after the versioned type: must not matter
+
+
 def chain_symbols():
     """three minor versions of one message type under one major: every choice of port-ID and layout per version"""
     per = []
     for v in ([1, 0], [1, 1], [1, 2]):
-        per.append([{"name": "r.A", "ver": v, "kind": "message", "port": p, "layout": [l, l]} for p in (None, 6200) for l in ("sealed", "e64")])
+        per.append([{"name": "r.M", "ver": v, "kind": "message", "port": p, "layout": [l, l]} for p in (None, 6200) for l in ("sealed", "e64")])
     return per
 
 
@@ -135,9 +138,10 @@ def cases(shard, tier):
         for combo in itertools.product(*chain_symbols()):
             # which members live in a same-named lookup root and are referenced from the newest target member
             for mask in range(0, 7):
-                if i % shard["parts"] == shard["part"]:
-                    yield {"symbols": list(combo), "tier": tier, "chain_lookup_mask": mask}
-                i += 1
+                for by in BYSTANDERS:
+                    if i % shard["parts"] == shard["part"]:
+                        yield {"symbols": list(combo), "tier": tier, "chain_lookup_mask": mask, "bystander": by}
+                    i += 1
         return
     if shard["kind"] == "port-triples":
         # three message definitions over two names: who may share a port-ID when it was added by a newer minor version
@@ -207,11 +211,13 @@ def check_chain(case, R: engine.Acc):
         files[file_of(s)] = t
     for s in in_lookup:
         files[file_of(s, "q/r")] = text_of(s)
+    if case.get("bystander"):
+        files["r/%s.1.0.dsdl" % case["bystander"].split(".")[-1]] = "uint8 unrelated\n@sealed\n"
     # the reference fields change the referrer's size: sealed layouts of the referrer then differ from its siblings
     direct = list(targets)
     transitive = list(in_lookup)
     exp_ok = cross_chain(direct, transitive)
-    R.case([S, mask], nontrivial=True, sample=(mask == 1 and not exp_ok and len(R.samples) < 3))
+    R.case([S, mask, case.get("bystander")], nontrivial=True, sample=(mask == 1 and not exp_ok and len(R.samples) < 3))
     o = api.read_namespace_tree(files, "r", ["q/r"] if in_lookup else [])
     one = dict(case)
     if o.error is not None and not o.error["ide"]:
